@@ -65,10 +65,30 @@ class FaultyPath(pathlib.PosixPath):
         return super().open(mode, *a, **k)
 
 
+import enum
+import uuid
+
+
+class ModelEnum(str, enum.Enum):
+    # model names may be Enum members (the store uses .value)
+    E = 'me'
+
+
+PID_UUID = uuid.UUID('12345678-1234-5678-1234-567812345678')
+
+
+def decode_name(x):
+    return ModelEnum.E if x == '<enum:me>' else x
+
+
+def decode_pid(x):
+    return PID_UUID if x == '<uuid>' else x
+
+
 class Ctx:
     def __init__(self, model_name, pipeline_id):
-        self.model_name = model_name
-        self.pipeline_id = pipeline_id
+        self.model_name = decode_name(model_name)
+        self.pipeline_id = decode_pid(pipeline_id)
 
 
 def drive(coro):
@@ -111,7 +131,11 @@ class StoreHarness:
         return getattr(self, 'op_' + op[0])(*op[1:])
 
     def op_ctx(self, model_name, pipeline_id):
-        self.ctxs.append((model_name, pipeline_id))
+        # the key of the model is what ends up in the path: '<enum:me>' is the Enum member with value 'me', which
+        # shares its directory with the plain string 'me' (the store documents .value)
+        m = 'me' if model_name == '<enum:me>' else model_name
+        p_ = str(PID_UUID) if pipeline_id == '<uuid>' else pipeline_id
+        self.ctxs.append((m, p_))
         self.stores.append(self.fsmod.FileSystemArtifactStore(Ctx(model_name, pipeline_id), self.dir))
         return None
 
@@ -245,8 +269,8 @@ def build_machine():
     )
     pickle_val = st.one_of(json_val, st.tuples(st.integers(0, 3), st.text(max_size=2)), st.binary(max_size=4),
                            st.frozensets(st.integers(0, 3), max_size=2))
-    names = st.sampled_from(['m', 'm2', 'm.x'])
-    pids = st.sampled_from(['p', 'p2', 'p.1', 7])
+    names = st.sampled_from(['m', 'm2', 'm.x', 'me', '<enum:me>'])
+    pids = st.sampled_from(['p', 'p2', 'p.1', 7, '<uuid>'])
 
     class Machine(RuleBasedStateMachine):
         EXAMPLES = 0
